@@ -137,8 +137,6 @@ def run(tier):
 
 
 def explain_case(v, verdict, mode, results, idx):
-    if v["renaming"]["kind"] == "class" and v["renaming"]["to"] in ("Union", "Generic"):
-        return "KF-C15-1"
     return None
 
 
